@@ -5,6 +5,7 @@
 #include "common/engine.hpp"
 #include "common/solverkit.hpp"
 #include "common/tissuegen.hpp"
+#include "common/meshgen.hpp"
 
 using namespace vg;
 
@@ -262,8 +263,196 @@ static std::string run(const Case& k, vf::Ctx& ctx) {
     return "";
 }
 
+
+// ------------------------------------------------------------------------------------------------ division
+// One division of a cell that is in the state the solver divides cells in (cached areas / normals / centroid one time step old,
+// nodes already moved by the integration) against the division of its translated copy, with identical sampling seeds.
+#include "cell_divider.hpp"
+#include "local_mesh_refiner.hpp"
+
+struct DCase {
+    TriMesh mesh;          // reference placement
+    double tr[3] = {0, 0, 0};
+    int tclass = 0;
+    double swell = 1.03;   // the step between the cached state and the division: nodes scaled about the centroid (growth)
+    double squash = 1.0;   // and stretched along x (shape change, so that the area does not scale like the volume)
+    double lmin_f = 0.15;
+    uint64_t seed = 1;
+    void write(vf::Writer& w) const {
+        mg::write_mesh(w, mesh);
+        for (double v : tr) w.d(v);
+        w.i(tclass), w.d(swell), w.d(squash), w.d(lmin_f), w.u(seed);
+        w.nl();
+    }
+    static DCase read(vf::Reader& r) {
+        DCase c;
+        c.mesh = mg::read_mesh(r);
+        for (double& v : c.tr) v = r.d();
+        c.tclass = (int)r.i(), c.swell = r.d(), c.squash = r.d(), c.lmin_f = r.d(), c.seed = r.u();
+        return c;
+    }
+};
+
+static rc::Gen<DCase> genD() {
+    using namespace vf;
+    return rc::gen::exec([]() {
+        DCase c;
+        mg::ShapeSpec s;
+        s.family = 3, s.param = *irange(1, 2);
+        s.sx = *uniform(1.25, 1.9), s.sy = *uniform(0.75, 1.1), s.sz = *uniform(0.75, 1.1);  // a unique longest axis
+        s.bump_amp = *uniform(-0.15, 0.15), s.bump_k = *irange(1, 3);
+        s.noise = *uniform(0.0, 0.08);
+        for (int i = 0; i < 12; i++) s.noise_v.push_back(*uniform(-1, 1));
+        mg::Placement pl;
+        pl.q[0] = *uniform(-1, 1), pl.q[1] = *uniform(-1, 1), pl.q[2] = *uniform(-1, 1), pl.q[3] = *uniform(-1, 1);
+        pl.scale = *rc::gen::element(1.0, 1.0, 1e-5, 7.0);
+        const double size = 2 * pl.scale;
+        for (double& v : pl.t) v = *uniform(-1, 1) * 2 * size;
+        pl.t[0] += 3 * size;
+        c.mesh = mg::place(mg::build_shape(s), pl);
+        c.tclass = *rc::gen::element(0, 1, 1, 2, 2, 3, 5);
+        V3 d(*uniform(-1, 1), *uniform(-1, 1), *uniform(-1, 1));
+        if (d.norm() < 1e-2) d = V3(1, 0, 0);
+        d = d * (1 / d.norm());
+        V3 cen = vg::vertex_mean(c.mesh);
+        switch (c.tclass) {
+            case 0: d = d * (0.4 * size); break;
+            case 1: d = d * (10 * size); break;
+            case 2: d = d * (100 * size); break;
+            case 3: d = cen * (-2.0L); break;
+            default: d = d * (1000 * size); break;
+        }
+        c.tr[0] = (double)d.x, c.tr[1] = (double)d.y, c.tr[2] = (double)d.z;
+        c.swell = *rc::gen::element(1.0, 1.01, 1.03, 1.06, 0.97);
+        c.squash = *rc::gen::element(1.0, 1.02, 1.05, 0.96);
+        c.lmin_f = *uniform(0.05, 0.3);
+        c.seed = (uint64_t)*irange(1, 1 << 30);
+        return c;
+    });
+}
+
+static uint64_t g_div_seed = 1;
+static uint64_t div_seed() { return g_div_seed; }
+
+struct DivOut {
+    bool ok = false;
+    ld v[2] = {0, 0};
+    V3 c[2];
+    size_t faces[2] = {0, 0};
+};
+
+static std::string runD(const DCase& k, vf::Ctx& ctx) {
+    ct::CellScope scope;
+    const ld size = vg::mesh_size(k.mesh);
+    const ld emin = vg::min_edge(k.mesh), emax = vg::max_edge(k.mesh);
+    ld lo = emax / 3 * 1.02, hi = emin * 0.98;
+    const double lmin = (double)(lo <= hi ? lo + (hi - lo) * ((k.lmin_f - 0.05) / 0.25) : std::min<ld>(hi, std::max<ld>(lo * 0.6, emin * 0.6)));
+    // which: 0 reference, 1 translated, 2.. reference with representation-error-sized noise
+    auto divide = [&](int which, DivOut& out) -> std::string {
+        TriMesh m = k.mesh;
+        uint64_t ns = k.seed * 31 + 977 * which;
+        for (size_t i = 0; i < m.xyz.size(); i++) {
+            double& x = m.xyz[i];
+            if (which == 1) x = x + k.tr[i % 3];
+            if (which >= 2) x = x + u11(ns) * std::max(std::fabs(x), std::fabs(x + k.tr[i % 3])) * 2.2e-16;
+        }
+        auto type = ct::default_cell_type(3);
+        std::shared_ptr<epithelial_cell> c;
+        try {
+            c = ct::make_cell<epithelial_cell>(m, 5, type);
+        } catch (const std::exception& e) {
+            return std::string("cell rejects generated mesh: ") + e.what();
+        }
+        scope.add(c);
+        c->set_target_volume(c->get_volume());
+        // the state in which the solver divides: caches filled by the force computation of the previous iteration ...
+        c->apply_internal_forces(0.);
+        // ... and the nodes moved by the integration since (growth and a change of shape)
+        V3 g;
+        size_t n = 0;
+        for (auto& nd : cell_tester::nodes(*c))
+            if (nd.is_used()) g = g + ct::to_v3(nd.pos()), n++;
+        g = g * ((ld)1 / n);
+        for (auto& nd : cell_tester::nodes(*c)) {
+            if (!nd.is_used()) continue;
+            V3 r = (ct::to_v3(nd.pos()) - g) * (ld)k.swell;
+            r.x *= (ld)k.squash;
+            cell_tester::pos(nd) = ct::to_vec3(g + r);
+            cell_tester::force(nd).reset();
+        }
+        local_mesh_refiner lmr(lmin, 3 * lmin, true);
+        g_div_seed = k.seed;
+        simucell3d_verif::seed_source() = div_seed;
+        srand((unsigned)k.seed);
+        auto res = cell_divider::divide_cell(c, lmin, lmr);
+        simucell3d_verif::seed_source() = nullptr;
+        out.ok = res.has_value();
+        if (out.ok) {
+            scope.add(res->first), scope.add(res->second);
+            cell_ptr d[2] = {res->first, res->second};
+            for (int i = 0; i < 2; i++) {
+                TriMesh dm = ct::snapshot(*d[i]);
+                out.v[i] = fabsl(vg::signed_volume(dm));
+                out.c[i] = vg::vertex_mean(dm);
+                out.faces[i] = d[i]->get_nb_of_faces();
+            }
+        }
+        return "";
+    };
+    DivOut A, B, N1, N2;
+    std::string m;
+    if (!(m = divide(0, A)).empty() || !(m = divide(1, B)).empty() || !(m = divide(2, N1)).empty() || !(m = divide(3, N2)).empty()) return m;
+    std::ostringstream os;
+    os << std::setprecision(10);
+    ctx.count(std::string("division_translation_") + TC[k.tclass]);
+    if (N1.ok != A.ok || N2.ok != A.ok) {
+        ctx.count("division_outcome_flipped_by_rounding_noise_inconclusive");
+        return "";
+    }
+    if (A.ok != B.ok) {
+        os << "the " << (A.ok ? "reference" : "translated") << " cell divides, the " << (A.ok ? "translated" : "reference") << " one does not (translation class " << TC[k.tclass]
+           << ", T = (" << k.tr[0] << "," << k.tr[1] << "," << k.tr[2] << "))";
+        return os.str();
+    }
+    if (!A.ok) {
+        ctx.count("division_failed_in_both");
+        return "";
+    }
+    const V3 T(k.tr[0], k.tr[1], k.tr[2]);
+    // daughters are returned in the same order (same side of the same plane)
+    auto frac = [](const DivOut& o) { return o.v[0] / (o.v[0] + o.v[1]); };
+    const ld fA = frac(A), fB = frac(B), noise_f = std::max(fabsl(frac(N1) - fA), fabsl(frac(N2) - fA));
+    ld noise_c = 0, dev_c = 0;
+    for (int i = 0; i < 2; i++) {
+        noise_c = std::max(noise_c, std::max((N1.c[i] - A.c[i]).norm(), (N2.c[i] - A.c[i]).norm()));
+        dev_c = std::max(dev_c, (B.c[i] - A.c[i] - T).norm());
+    }
+    // rounding can flip single decisions of the surface reconstruction: a couple of triangles, far below these bounds
+    const ld tol_f = std::max<ld>(0.02, 20 * noise_f), tol_c = std::max<ld>(0.05 * size, 20 * noise_c);
+    if (fabsl(fA - fB) > tol_f) {
+        os << "daughter 1 takes " << (double)fA << " of the volume in the reference run and " << (double)fB << " in the translated run (rounding noise moves it by " << (double)noise_f
+           << "; translation class " << TC[k.tclass] << ", cached area one step old: nodes scaled by " << k.swell << " and stretched by " << k.squash << " since)";
+        return os.str();
+    }
+    if (dev_c > tol_c) {
+        os << "a daughter of the translated run sits " << (double)dev_c << " away from the translated daughter of the reference run (cell size " << (double)size << ", rounding noise "
+           << (double)noise_c << ", translation class " << TC[k.tclass] << ")";
+        return os.str();
+    }
+    if (A.faces[0] == B.faces[0] && A.faces[1] == B.faces[1]) ctx.count("division_identical_face_counts");
+    if (k.swell != 1.0 || k.squash != 1.0) ctx.count("division_with_stale_caches");
+    if (k.tclass != 0) {
+        ctx.nontriv();
+        std::ostringstream s2;
+        s2 << "division tris=" << k.mesh.nt() << " " << TC[k.tclass] << " swell=" << k.swell << " squash=" << k.squash << " fraction " << (double)fA << " vs " << (double)fB;
+        ctx.sample(s2.str());
+    }
+    return "";
+}
+
 int main(int argc, char** argv) {
     std::vector<vf::Sub> subs;
     subs.push_back(vf::make_sub<Case>("lockstep", genCase, run));
+    subs.push_back(vf::make_sub<DCase>("division", genD, runD));
     return vf::engine_main(argc, argv, "C14_translate", subs);
 }
